@@ -11,7 +11,7 @@ import json
 
 from ..framework import Check, Violation
 from ..xplore import explore, run_once, HarnessError
-from .. import harness, dialogues, reqs, vnet
+from .. import harness, dialogues, reqs, vnet, vserver
 from ..env import Rng
 from ..simdev.base import World
 from ..simdev.powhsm import PowHsm
@@ -95,67 +95,21 @@ class C12(Check):
         return cs
 
     def driver(self, case):
-        import socketserver
-        import comm.server as SRV
         cmds = case["cmds"]
         lines = [json.dumps(self.slots[i][k]).encode() + b"\n" for i, k in enumerate(cmds)]
 
         def run(ctx):
-            net = vnet.Net(ctx)
-            sched = net.sched
             dev = PowHsm(seed=b"c12")
             w = World(dev)
             proto = harness.make_protocol(w)
-            proto.initialize_device = lambda: None
-
-            def on_exchange(apdu):
-                w.tag = vnet.real_threading.current_thread().name
-                sched.yield_point("exchange")
-            w.on_exchange = on_exchange
+            frags = []
             for i, line in enumerate(lines):
                 if case["frag"][i] == 1:
-                    net.add_client([line])
+                    frags.append([line])
                 else:
                     cut = len(line) // 2
-                    net.add_client([line[:cut], line[cut:]])
-            server = SRV.TCPServer("localhost", 9999, proto)
-            info = {"early_shutdown": False}
-            sched.horizon = lambda: all(c.finished() for c in net.clients)
-
-            def on_horizon():
-                srv = server.server
-                if srv is not None:
-                    info["early_shutdown"] = bool(getattr(srv, "_BaseServer__shutdown_request", False))
-                    srv._BaseServer__shutdown_request = True
-            sched.on_horizon = on_horizon
-            saved = (socketserver.socket, socketserver._ServerSelector, socketserver.threading,
-                     SRV.threading, socketserver.__dict__.get("os"))
-            fake_thr = vnet.FakeThreadingModule(sched)
-            rt = vnet.real_threading
-            saved_rt = (rt.Thread, rt.Timer)
-            try:
-                # any thread the code under test creates anywhere joins the schedule
-                rt.Thread = fake_thr.Thread
-                rt.Timer = fake_thr.Timer
-                socketserver.socket = vnet.FakeSocketModule(net)
-                socketserver._ServerSelector = lambda: vnet.FakeSelector(net)
-                socketserver.threading = fake_thr
-                SRV.threading = fake_thr
-                crashed = []
-
-                def body():
-                    try:
-                        server.run()
-                    except vnet.SchedAbort:
-                        raise
-                    except BaseException as e:   # noqa
-                        crashed.append(repr(e))
-                main = sched.new_thread(body, "server")
-                sched.run_main(main)
-            finally:
-                rt.Thread, rt.Timer = saved_rt
-                (socketserver.socket, socketserver._ServerSelector, socketserver.threading,
-                 SRV.threading, _os) = saved
+                    frags.append([line[:cut], line[cut:]])
+            net, info, crashed = vserver.run_server(proto, w, frags, ctx)
             return net, w, info, crashed
         return run
 
